@@ -22,6 +22,21 @@ pub struct CaseIn {
     pub doc: String,
     #[serde(default)]
     pub docs: Vec<String>,
+    /// service calls (op "call"): rust method name, arguments, scripted returns, flavour
+    #[serde(default)]
+    pub method: String,
+    #[serde(default)]
+    pub args: serde_json::Map<String, Value>,
+    #[serde(default)]
+    pub script: std::collections::HashMap<String, String>,
+    #[serde(default)]
+    pub flavour: String,
+}
+
+impl CaseIn {
+    pub fn call_spec(&self) -> crate::svc::CallSpec {
+        crate::svc::CallSpec { method: self.method.clone(), args: crate::svc::Args(self.args.clone()), script: self.script.clone(), seed: self.id }
+    }
 }
 
 fn guard(f: impl FnOnce() -> Value) -> Value {
